@@ -216,6 +216,21 @@ fn prelude(state: SessState) -> (Option<u16>, Vec<Step>) {
     }
 }
 
+/// With all slots taken: afterwards the broker acknowledges the newest request and the application
+/// issues one more of the same kind. Nothing a refused request did may show in the handles then (a
+/// completed operation stays complete).
+fn follow_up(state: SessState, after_disconnect: bool) -> Vec<Step> {
+    if state != SessState::SlotsFull || after_disconnect {
+        return vec![];
+    }
+    let so = SubOpts { qos: 1, no_local: false, rap: false, retain_handling: 0 };
+    vec![
+        Step::Broker(BrokerAct::Ack { which: u16::MAX, reason: 0, form: AckForm::Short }),
+        Step::PollIdle { max: 5 },
+        Step::Subscribe { filters: vec![(TopicSpec::new(3, 99), so)], props: vec![], cancel: None },
+    ]
+}
+
 fn op_step(ctx: PCtx, prop: &Prop, qos: u8, correlate: bool) -> Step {
     match ctx {
         PCtx::Publish => Step::Publish(PubSpec { props: vec![prop.clone()], correlate: if correlate { Some(vec![1, 2, 3]) } else { None }, ..PubSpec::simple(qos, 3, 5, 9) }),
@@ -252,6 +267,7 @@ pub fn case_of(cell: &Cell) -> Case {
         Cell::Prop { ctx, prop, state, qos, correlate } => {
             let (rm, mut steps) = prelude(*state);
             steps.push(op_step(*ctx, prop, *qos, *correlate));
+            steps.extend(follow_up(*state, *ctx == PCtx::Disconnect));
             Case { cfg: base_cfg, broker: BrokerMode::Scripted, conns: vec![conn(rm, None, steps)] }
         }
         Cell::EmptyList { subscribe, state } => {
@@ -261,6 +277,7 @@ pub fn case_of(cell: &Cell) -> Case {
             } else {
                 Step::Unsubscribe { filters: vec![], props: vec![], cancel: None }
             });
+            steps.extend(follow_up(*state, false));
             Case { cfg: base_cfg, broker: BrokerMode::Scripted, conns: vec![conn(rm, None, steps)] }
         }
         Cell::DeadHandle { op, idle, death } => {
@@ -359,6 +376,26 @@ pub fn eval_cell(cell: &Cell) -> (Vec<Violation>, Expect) {
             v.sig = format!("C19/accepted-property-not-on-wire/{}", v.sig);
         }
     }
+    // a handle that has reported complete never goes back to pending (no identifier wraps here)
+    {
+        let mut completed: Vec<bool> = Vec::new();
+        for e in &trace.events {
+            if let Event::Sample(smp) = e {
+                for (h, st) in smp.handles.iter().enumerate() {
+                    if completed.len() <= h {
+                        completed.resize(h + 1, false);
+                    }
+                    match st {
+                        HStatus::Complete => completed[h] = true,
+                        HStatus::Pending if completed[h] => {
+                            bad(&mut viol, "C19/refused-request-changed-handle".into(), format!("handle {h} reported complete and later pending again"));
+                        }
+                        _ => {}
+                    }
+                }
+            }
+        }
+    }
     let mut expect = Expect::Unspecified;
     match cell {
         Cell::Prop { ctx: PCtx::Will, prop, .. } => {
@@ -373,7 +410,8 @@ pub fn eval_cell(cell: &Cell) -> (Vec<Violation>, Expect) {
         }
         Cell::Prop { ctx, prop, state, qos, .. } => {
             expect = expectation(*ctx, prop);
-            let Some(op) = trace.ops.len().checked_sub(1) else { return (viol, expect) };
+            let cell_step = prelude(*state).1.len();
+            let Some(op) = trace.ops.iter().position(|o| o.step == (0, cell_step)) else { return (viol, expect) };
             let rec = &trace.ops[op];
             let id = prop.id();
             let exhausted = matches!(state, SessState::QuotaExhausted | SessState::SlotsFull);
@@ -416,7 +454,8 @@ pub fn eval_cell(cell: &Cell) -> (Vec<Violation>, Expect) {
         }
         Cell::EmptyList { subscribe, state } => {
             expect = Expect::Reject;
-            let op = trace.ops.len() - 1;
+            let cell_step = prelude(*state).1.len();
+            let op = trace.ops.iter().position(|o| o.step == (0, cell_step)).unwrap_or(trace.ops.len() - 1);
             let rec = &trace.ops[op];
             let (before, after) = samples_around(&trace, op);
             if rec.res != OpRes::Err(ErrKind::InvalidRequest) {
